@@ -273,6 +273,7 @@ struct Hist
   const char *host() const { return v6 ? "::1" : "127.0.0.1"; }
   int iorasRcvBuf = 4 * 1024 * 1024; // --rcvbuf: only lowered by the self-test of the kernel-drop excuse
   bool deliveryTimedOut = false;
+  bool aborted = false; // set by the first delivery watchdog expiry; every later step returns at once
 
   Hist(uint64_t s, uint64_t i, const std::string &md, bool iso, bool vb)
     : seed(s), idx(i), mode(md), isolated(iso), verbose(vb), r(s * 1000003ull + (md == "idle" ? 7777 : 0), i)
@@ -473,6 +474,7 @@ struct Hist
     deliveryTimedOut = true;
     feat["delivery_wait_timed_out"]++;
     waitScale = std::min(waitScale, 0.1);
+    aborted = true; // the rest of the plan is skipped: the history is a loss suspect as it stands
   }
   void waitData(uint64_t target, const char *label, bool mayBeRefused = false)
   {
@@ -480,7 +482,7 @@ struct Hist
     {
       // a peer without a receiving session sending while the engine is at its maxSessions cap may be
       // refused: nothing to wait for beyond a moment (the checker decides from the complete log)
-      if (!W.waitFor(150, [&] { return W.nData >= target; })) feat["wait_skipped_peer_may_be_refused_at_session_cap"]++;
+      if (!W.waitFor(80, [&] { return W.nData >= target; })) feat["wait_skipped_peer_may_be_refused_at_session_cap"]++;
     }
     else if (!W.waitFor(watchdogMs() * waitScale, [&] { return W.nData >= target; })) noteDeliveryTimeout();
     mark(std::string("quiesce:") + label);
@@ -529,6 +531,7 @@ struct Hist
   }
   void stepPeerSend(int p = -1, int l = -1, int n = 0)
   {
+    if (aborted) return;
     if (p < 0) p = pickPeer(true);
     if (l < 0) l = int(r.below(L.size()));
     if (!n) n = int(r.range(1, 4));
@@ -541,6 +544,7 @@ struct Hist
   }
   void stepPeerSendConnected()
   {
+    if (aborted) return;
     auto v = openSessions([](const DS &d) { return d.kind == 'C' && d.peer >= 0 && !d.local.empty(); });
     if (v.empty()) { stepPeerSend(); return; }
     DS &d = S[r.pick(v)];
@@ -552,6 +556,7 @@ struct Hist
   }
   void stepForeign()
   {
+    if (aborted) return;
     auto v = openSessions([](const DS &d) { return d.kind == 'C' && d.peer >= 0 && !d.local.empty(); });
     if (v.empty() || P.size() < 2) { stepPeerSend(); return; }
     DS &d = S[r.pick(v)];
@@ -564,6 +569,7 @@ struct Hist
   }
   void stepTSend(bool eagain)
   {
+    if (aborted) return;
     std::vector<uint64_t> cand;
     bool closedTarget = r.chance(0.1);
     for (auto &kv : S) if (kv.second.open != closedTarget) cand.push_back(kv.first);
@@ -583,6 +589,7 @@ struct Hist
   // several destinations queued behind EAGAIN at once
   void stepEagainMulti()
   {
+    if (aborted) return;
     auto v = openSessions([](const DS &d) { return d.peer >= 0; });
     if (v.size() < 2) { stepVia(); return; }
     // one session per distinct peer first, then anything
@@ -611,6 +618,7 @@ struct Hist
   }
   uint64_t stepVia(int p = -1, int l = -1)
   {
+    if (aborted) return 0;
     if (p < 0) p = pickPeer(true);
     if (l < 0) l = int(r.below(L.size()));
     Ev e; e.k = Ev::OPEN; e.id = nextOp++; e.cls = 2; e.peer = p; e.a1 = P[p].addr; e.a3 = L[l].addr;
@@ -629,6 +637,7 @@ struct Hist
   }
   uint64_t stepConnect(int p = -1)
   {
+    if (aborted) return 0;
     if (p < 0) p = int(r.below(P.size()));
     Ev e; e.k = Ev::OPEN; e.id = nextOp++; e.cls = 1; e.peer = p; e.a1 = P[p].addr;
     size_t at = W.add(std::move(e));
@@ -659,6 +668,7 @@ struct Hist
   }
   void stepClose(uint64_t sid = 0)
   {
+    if (aborted) return;
     if (!sid)
     {
       // bias: a peer with two or more open listener-side sessions -> close one of them
@@ -693,6 +703,7 @@ struct Hist
   // accepted send that the kernel refuses with EMSGSIZE: the session is closed on error
   void stepOversize()
   {
+    if (aborted) return;
     auto v = openSessions([](const DS &d) { return d.peer >= 0; });
     if (v.empty()) { stepPeerSend(); return; }
     uint64_t sid = r.pick(v);
@@ -708,6 +719,7 @@ struct Hist
   // sends both ways without waiting in between; a second thread issues part of the transport sends
   void stepBurst()
   {
+    if (aborted) return;
     auto v = openSessions([](const DS &d) { return d.peer >= 0; });
     int np = int(r.range(2, 6));
     std::vector<Prepared> mine, theirs;
@@ -733,7 +745,7 @@ struct Hist
     while (mi < mine.size()) fire(mine[mi++]);
     helper.join();
     feat["step_burst_both_ways"]++;
-    if (refusable) { if (!W.waitFor(300, [&] { return W.nData >= dBefore + uint64_t(np); })) feat["wait_skipped_peer_may_be_refused_at_session_cap"]++; }
+    if (refusable) { if (!W.waitFor(150, [&] { return W.nData >= dBefore + uint64_t(np); })) feat["wait_skipped_peer_may_be_refused_at_session_cap"]++; }
     else if (!W.waitFor(watchdogMs() * waitScale, [&] { return W.nData >= dBefore + uint64_t(np); })) noteDeliveryTimeout();
     std::vector<uint64_t> bsids;
     for (auto &pr : mine) bsids.push_back(pr.sid);
@@ -745,6 +757,7 @@ struct Hist
   // same peer is opened and closed, then the peer sends again
   void motifOtherClose()
   {
+    if (aborted) return;
     int p = pickPeer(true), l = int(r.below(L.size()));
     feat["motif_other_session_closed"]++;
     if (r.chance(0.75)) stepPeerSend(p, l, 1);                 // receiving session: accepted (or an earlier one)
@@ -778,6 +791,7 @@ struct Hist
   // again - the cap must not touch it - and (b) a peer without one sends - it may be refused, which is counted
   void motifAtCap()
   {
+    if (aborted) return;
     feat["motif_at_session_cap"]++;
     int l = int(r.below(L.size()));
     // an established peer (make room for one if there is none)
@@ -785,12 +799,12 @@ struct Hist
     for (size_t i = 0; i < P.size() && p < 0; i++) if (established(int(i))) p = int(i);
     if (p < 0)
     {
-      while (atCap()) { auto all = openSessions(); if (all.empty()) break; stepClose(r.pick(all)); }
+      while (atCap() && !aborted) { auto all = openSessions(); if (all.empty()) break; stepClose(r.pick(all)); }
       p = int(r.below(P.size()));
       stepPeerSend(p, l, 1);
     }
     // fill up: connect() sessions are not cap-checked but count; new peers take slots through implicit accepts
-    for (int guard = 0; !atCap() && guard < 12; guard++)
+    for (int guard = 0; !atCap() && guard < 12 && !aborted; guard++)
     {
       if (r.chance(0.5)) stepConnect(int(r.below(P.size())));
       else { int q = int(r.below(P.size())); if (established(q)) stepVia(q, l); else stepPeerSend(q, l, 1); }
@@ -814,7 +828,7 @@ struct Hist
     if (r.chance(0.3)) motifAt.insert(int(r.below(steps)));
     // open with some traffic so that there is state to work with
     stepPeerSend();
-    for (int s = 0; s < steps; s++)
+    for (int s = 0; s < steps && !aborted; s++)
     {
       if (motifAt.count(s)) { motifOtherClose(); continue; }
       if (sessionCap && (s == steps / 3 || s == (2 * steps) / 3)) { motifAtCap(); continue; }
@@ -839,7 +853,7 @@ struct Hist
     for (;;)
     {
       { std::lock_guard<std::mutex> g(W.m); if (W.cbClosed.count(victim)) return true; }
-      if (vf::nowNs() > dl) return false;
+      if (vf::nowNs() > dl || aborted) return false;
       if (keepAlive) keepAlive();
       vf::sleepMs(150 + double(r.below(150)));
     }
